@@ -313,7 +313,7 @@ class Comparer(object):
             return
         for d, (x, y) in enumerate(zip(a.shape, b.shape)):
             self.goal('%s.shape[%d]' % (name, d), mk_eq(x, y))
-        if a.dtype != b.dtype and 'bool' in (a.dtype, b.dtype):
+        if a.dtype != b.dtype:
             self.mismatch(name, 'dtype %s vs %s' % (a.dtype, b.dtype))
             return
         if not self.tok_pair(name, a.token, b.token):
